@@ -245,13 +245,13 @@ func (s *Sim) StartCore() error {
 	s.coreDone = done
 	go func() {
 		err := cmd.Wait()
+		close(done) // first: StartCore holds s.mu while it waits and selects on done
 		s.mu.Lock()
 		s.coreErr = err
 		if s.cmd == cmd {
 			s.cmd = nil
 		}
 		s.mu.Unlock()
-		close(done)
 	}()
 	// wait for gRPC
 	deadline := time.Now().Add(120 * time.Second) // generous: a loaded machine is not a verdict
@@ -259,7 +259,8 @@ func (s *Sim) StartCore() error {
 	for time.Now().Before(deadline) {
 		select {
 		case <-done:
-			return fmt.Errorf("core exited during start-up: %v (see %s)", s.coreErr, s.StderrPath())
+			s.cmd = nil
+			return fmt.Errorf("core exited during start-up (see %s)", s.StderrPath())
 		default:
 		}
 		ctx, cancel := context.WithTimeout(context.Background(), 500*time.Millisecond)
@@ -345,14 +346,14 @@ func (s *Sim) DumpGoroutines() string {
 	dump := string(after[len(before):])
 	var out []string
 	for _, blk := range strings.Split(dump, "\n\n") {
-		if !strings.HasPrefix(blk, "goroutine ") || !strings.Contains(blk, "/repo/core/") {
+		if !strings.HasPrefix(blk, "goroutine ") || !strings.Contains(blk, "/core/") {
 			continue
 		}
 		lines := strings.Split(blk, "\n")
 		var keep []string
 		keep = append(keep, lines[0])
 		for i := 1; i+1 < len(lines); i += 2 {
-			if strings.Contains(lines[i+1], "/repo/") {
+			if strings.Contains(lines[i+1], "/core/") || strings.Contains(lines[i+1], "/common/") || strings.Contains(lines[i+1], "/executor/") {
 				keep = append(keep, "  "+strings.TrimSpace(lines[i])+" @ "+strings.TrimSpace(strings.SplitN(strings.TrimSpace(lines[i+1]), " ", 2)[0]))
 			}
 		}
